@@ -223,7 +223,8 @@ def _sum_range(rng: ast.Call) -> ast.AST:
 
 @_simplify_math
 def _sum_constants(values: Sequence[ast.AST]) -> ast.AST:
-    expr = " + ".join(core.unparse(node).strip() for node in values)
+    # The values may be expressions of any precedence: 1 << 2, 3 is not 1 << 2 + 3
+    expr = " + ".join(f"({core.unparse(node).strip()})" for node in values)
     return core.parse(expr)
 
 
